@@ -127,8 +127,15 @@ enum DoFilesState {
 /// If `p` is not absolute.
 pub fn possible_do_files<P: AsRef<Path>>(p: P) -> PossibleDoFiles {
     assert!(p.as_ref().is_absolute());
+    let norm = helpers::normpath(p.as_ref()).to_path_buf();
     PossibleDoFiles {
-        state: DoFilesState::First(helpers::normpath(p.as_ref()).to_path_buf()),
+        state: if norm.file_name().is_none() {
+            // The root directory (`redo ../../..` far enough up) has no name
+            // and no rule: no candidates.
+            DoFilesState::Stopped
+        } else {
+            DoFilesState::First(norm)
+        },
     }
 }
 
